@@ -857,3 +857,22 @@ impl Report
 		line_info.label_width
 	}
 }
+
+
+
+#[cfg(hlorenzi_customasm_verif)]
+impl Report
+{
+	/// Verification hook: read-only view of the recorded messages.
+	pub fn verif_messages(&self) -> &[Message]
+	{
+		&self.messages
+	}
+
+
+	/// Verification hook: read-only view of the parent stack.
+	pub fn verif_parents(&self) -> &[Message]
+	{
+		&self.parents
+	}
+}
